@@ -62,11 +62,12 @@ const (
 	mgAtDial    = -2
 	mgAtBackoff = -3
 
-	mgDeadline    = 5 * time.Second
 	mgRecvTimeout = 60 * time.Millisecond
 	mgGraceRun    = 2 * time.Millisecond  // after each scenario
 	mgGraceEnd    = 50 * time.Millisecond // `end`: since the last Remove of the sequence returned
 )
+
+var mgDeadline = scaled(5 * time.Second)
 
 type mgAttempt struct {
 	kind   byte   // M D O S R
